@@ -56,6 +56,39 @@ Fixpoint unicode_escape (l : list ascii) : option (list ascii) :=
       else option_map (cons c) (unicode_escape r)
   end.
 
+(* ---- re.sub(r"'(\\.|[^\\'])'", char_value, ...): a character literal becomes the decimal text of its code ------------- *)
+(* escape pairs \c: the simple escapes, one octal digit, anything else is left as it is (decode_escapes gives two
+   characters, or raises for a truncated \x \u \U \N: the text is then kept) *)
+Definition char_escape (c : ascii) : option Z :=
+  let n := zc c in
+  if (48 <=? n) && (n <=? 55) then Some (n - 48)
+  else match simple_escape c with Some y => Some (zc y) | None => None end.
+Fixpoint protect_chars (l : list ascii) : list ascii :=
+  match l with
+  | [] => []
+  | c :: r =>
+      if is_c c c_quote then
+        match r with
+        | x :: q :: r' =>
+            if is_c x c_bsl then
+              match r' with
+              | q2 :: r'' =>
+                  if is_c q2 c_quote then
+                    match char_escape q with
+                    | Some v => app (chars (dec_of_Z v)) (protect_chars r'')
+                    | None => c :: protect_chars r
+                    end
+                  else c :: protect_chars r
+              | [] => c :: protect_chars r
+              end
+            else if is_c x c_quote then c :: protect_chars r
+            else if is_c q c_quote then app (chars (dec_of_Z (zc x))) (protect_chars r')
+            else c :: protect_chars r
+        | _ => c :: protect_chars r
+        end
+      else c :: protect_chars r
+  end.
+
 (* ---- re.sub of #.*$ by the empty string ------------------------------------------------------------------------------- *)
 Fixpoint strip_comment (l : list ascii) : list ascii :=
   match l with [] => [] | c :: r => if is_c c c_hash then [] else c :: strip_comment r end.
@@ -81,7 +114,7 @@ Definition nonempty (t : list ascii) : bool := match t with [] => false | _ => t
 Definition tokens_of (l : list ascii) : list (list ascii) := filter nonempty (split_on sepc [] l).
 
 Definition lex_normal (l : list ascii) : list (list ascii) :=
-  let contents := strip_l (pad_parens (strip_comment l)) in
+  let contents := strip_l (pad_parens (strip_comment (protect_chars l))) in
   match contents with
   | [] => []
   | _ => tokens_of contents
